@@ -49,7 +49,7 @@ check("C15", "DESIGN.md 5/C15",
       "formulas with unicode names. PyNorm.tla models the normalisation of python fragments (scan for string literals and quoted names, "
       "alias, format, restore) against the documented normal form; TLC proves the repaired algorithm faithful on every call expression of the "
       "family and refutes the two algorithms of the pinned commit (non-vacuity); every expression is replayed in four spacings and with its quoted "
-      "names respelt with characters Python's identifier rules treat specially. Token strings over quoted names that print like literals are parsed and compared with Wilkinson.tla.",
+      "names respelt with characters Python's identifier rules treat specially (and with backslashes, decomposed sequences); keyword operators (not / in / and / or / if-else) are replayed in the tight spelling where a backtick is the only delimiter; further refuted design errors: replacement templates, collapsed blank runs in literals, unpadded placeholders. Token strings over quoted names that print like literals are parsed and compared with Wilkinson.tla.",
       "Trusted: character classes computed with the regexes tokenize() documents; ast.dump as oracle of 'same python up to formatting'. "
       "Known finding D15 (names ending in an odd run of backslashes) is reported as KNOWN-FINDING.")
 
@@ -82,7 +82,8 @@ check("C19", "DESIGN.md 5/C19",
       "(top-first merge with writes confined to the private layer as an action property, ordering invariant, multiset law and list law of the "
       "formula sequence under each ordering mode none / degree / sort; random behaviours of 8 operations by tlc -simulate); each case is replayed into real Structured / LayeredMapping / SimpleFormula objects and alpha(object) compared. "
       "LayeredHeap.tla models layered mappings as an object graph (layers are references): histories of set / del / derive / join / grow on any object, every "
-      "object then read (MergeLaw, LookupLaw, FrameLaw); the design error of copying a nested mapping at construction is refuted by TLC.",
+      "object then read (MergeLaw, LookupLaw, FrameLaw); the design error of copying a nested mapping at construction is refuted by TLC. Trivial wrappers around structures with root and keys (simplify; erroneous "
+      "loop refuted); every supplied layer is realised as dict and as defaultdict (lookups must not create keys).",
       "Trusted: gamma/alpha between abstract values and the objects (alpha(gamma(t)) = t is itself checked). Bounded: shape family of "
       "depth 3, histories of <= 2-4 operations over 3 keys / 7 terms x 3 ordering modes x 4 starting formulas.")
 
@@ -93,7 +94,9 @@ check("C02", "DESIGN.md 5/C02",
       "TLC proves on every case in the bound that without rank reduction each term is the complete Kronecker product of the full "
       "encodings, that the intercept is a column of ones and that the literal scale is carried exactly once; the real model_matrix is "
       "compared name for name and cell for cell with the matrix the specification computes, for pandas, numpy and sparse output; the same numbers held "
-      "in the narrowest integer dtype must give the same matrix on each output type.",
+      "in the narrowest integer dtype must give the same matrix on each output type. MC_MatLevels.tla: levels named by C(A, levels=[...]) or recorded in an "
+      "attached spec x storage of the column (objects, categorical dtype declaring the levels in 4 orders) x re-application in another storage; laws "
+      "Indicators, StorageIrrelevant, ReapplyStable; the design error of trusting a dtype's codes when its category set equals the level list is refuted.",
       "Trusted: gamma (abstract frame -> DataFrame) and alpha (asarray/toarray). Verdict is equality with the model's matrix; under rank "
       "reduction this also fixes the reduced/full choice to the greedy one the model transcribes.")
 
@@ -170,7 +173,8 @@ check("C08", "DESIGN.md 5/C08",
       "declared order incl. unobserved levels, numeric incl. bool -> pass-through) and proves every expected cell is an integer; each case is "
       "realised with all available constructors on the pandas materializer, narwhals on the same frame and narwhals on a pyarrow table, for "
       "the three outputs, through the top-level function and through one materializer object used for every output in turn: names and cells equal the "
-      "model and every observed cell is a number.",
+      "model and every observed cell is a number; a formula codes the column twice in one build, the fitted spec is re-applied to the tail slice of the "
+      "same data (ReuseNumeric), and the frame is also run under string row labels.",
       "Trusted: the constructor list probed at run time; 'a number' = numbers.Number / numpy.number / numpy.bool_ per cell.")
 
 check("C04", "DESIGN.md 5/C04",
@@ -194,7 +198,9 @@ check("C09", "DESIGN.md 5/C09",
       "TLC proves on every (training frame, follow-up frame, formula) in the bound that a kind change is an encoding error, that reuse never "
       "adds, removes or renames a column (absent levels keep all-zero columns) and that unseen levels are announced; each pair is executed "
       "through spec.get_model_matrix and model_matrix(spec, ...), with the pickled spec too, comparing exception class, warning category, "
-      "names and cells with the model, for recorded specs of pandas, numpy and sparse output.",
+      "names and cells with the model, for recorded specs of pandas, numpy and sparse output. MC_ReuseSession.tla: the replay is carried out by one "
+      "materializer object that has answered earlier calls (fresh formulas or the spec); law SessionFree (the outcome equals that of a fresh object); the "
+      "design error of keeping evaluated factors between calls is refuted by TLC.",
       "Trusted: gamma/alpha. Numeric data under C() counts as unseen levels, not as a kind change (DESIGN section 11), and is not enumerated.")
 
 check("C11", "DESIGN.md 5/C11",
@@ -206,7 +212,9 @@ check("C11", "DESIGN.md 5/C11",
       "data vector of length <= 3 over levels + {null, unseen} is encoded through encode_contrasts (3 outputs, reduced and full) and "
       "through model_matrix('C(x, contr...)') on pandas frames and Arrow tables; Contrasts.apply is called on the indicator matrix itself as "
       "numpy array, pandas frame and sparse matrix (encoding = indicator . coding); the sparse forms must be sparse matrices of the right shape. "
-      "User-supplied coding matrices (array, list with names, dict) are encoded likewise.",
+      "User-supplied coding matrices (array, list with names, dict) are encoded likewise. MC_ContrastsOrder.tla: polynomial scores in every order of writing and "
+      "data carried by a categorical dtype whose own order differs from the nominated level list; MC_ContrastsReuse.tla: one contrasts object used over a "
+      "history of level lists (ReuseLaws); the design errors sorted-scores, trust-carrier and memo-position are refuted by TLC.",
       "Trusted: sqrt for the polynomial normalisation and a 1e-10 float comparison in the harness. Polynomial contrasts exact to n = 5 "
       "(32-bit rationals).")
 
@@ -232,7 +240,8 @@ check("C17", "DESIGN.md 5/C17",
       "'.' law for every column order; every case is executed: Formula.required_variables, success / FactorEvaluationError, cells (the "
       "layers hold different numbers so the source is observable), variables_by_source, ModelSpec.required_variables, the restricted "
       "build and the build with each required column removed.",
-      "The name that needs quoting is replayed under six spellings (blank, keyword, leading digit, python constant, dotted, dotted with a "
+      "A second quoted name whose placeholder collides with the first one's occurs in the same python factor (16 presence patterns x 6 spelling pairs); the right-hand side "
+      "around '.' is written in 7 ways (signs, 0, 1 before and after the wildcard, with and without blanks). The name that needs quoting is replayed under six spellings (blank, keyword, leading digit, python constant, dotted, dotted with a "
       "transform name in front). Known findings D19 (a data column named like a transform is omitted by the pre-materialization estimate) and "
       "D37 (attribute access reported as a dotted path) are reported as KNOWN-FINDING. Trusted: the concrete values placed in each layer.")
 
@@ -246,7 +255,9 @@ check("C18", "DESIGN.md 5/C18",
       "operation -> same result, also with respect to a canonical single-operation run under another seed; no live object changes), and "
       "the three logs must be identical. A second family of operations builds the same formula under two contexts that bind the same called names to "
       "a stateful built-in in one and to a plain function in the other (and reuses the spec at once): law Indep (every call returns what it returns "
-      "as the only call of a fresh process); the design error of memoising a name's statefulness process-wide is refuted by TLC.",
+      "as the only call of a fresh process); the design error of memoising a name's statefulness process-wide is refuted by TLC. A third family builds one formula on two frames whose columns differ in "
+      "kind (text / shared Formula object / shared un-materialised spec): the design error of caching the inferred kind on the formula is refuted; formula fingerprints include "
+      "each factor's kind; training columns whose fitted bound or mean is exactly zero make falsy recorded state observable.",
       "Trusted: the structural fingerprints. Bit-identity is compared within one interpreter version, not across output types.")
 
 check("C12", "DESIGN.md 5/C12",
@@ -257,7 +268,9 @@ check("C12", "DESIGN.md 5/C12",
       "counts, and validates its own cubic bases against their characterisation (identity at the knots, C1 at inner knots, natural or "
       "periodic end conditions); bs / cr / cc are executed on every case (direct, with recorded state, through model_matrix) and compared "
       "with the exact values, each extrapolation mode as documented; for calls with df the recorded knots are converted to exact "
-      "fractions and TLC computes the expected design matrix on that knot vector.",
+      "fractions and TLC computes the expected design matrix on that knot vector. Vectors with nulls (25 per bs case): a null is an NA row in every mode and "
+      "never a value outside the bounds, the call raises iff a non-null value is outside (GuardLaw); two erroneous guards are refuted by TLC; replayed as "
+      "fresh calls and with recorded state.",
       "Stated limits: exact grid only (integer / small-denominator knots, degree <= 3-5); the continuum, ill-conditioned knot vectors and "
       "the QR-centred basis are outside this family's reach - centering (zero column means, rank within the span of the free basis) is a "
       "numpy predicate; round trips whose rationals overflow 32 bits are counted, not judged.")
